@@ -252,13 +252,19 @@ CHECKS = {
         technique="TLA+ specs ValueAlgebra.tla (ImplEq, ImplSameHash, ImplUnite) + Algebra.tla (ImplSubst, the semilattice / hash / "
         "substitution laws, named deviation classes) checked by TLC on every triple of the bounded term space; each triple "
         "replayed through the real unite_values / == / hash / can_assign / substitute_typevars and the real results adjudicated "
-        "by TLC (AlgebraTrace.tla: laws evaluated on the real result terms, Members via Member)",
-        text="Model checking over 38 terms (literals incl. unhashable ones, typed, generic, sequence, subclass, newtype, type "
-        "variables, unions incl. permuted and nested ones) x 6 type-variable maps, all triples; exhaustive replay into the real "
-        "value API with drift 0. Two defects were repaired (union hash, substitution into unions), the identity hash of "
-        "unhashable literals is a known finding.",
+        "by TLC (AlgebraTrace.tla: laws evaluated on the real result terms, Members via Member); SubstContexts.tla (context-with-hole "
+        "generator over every sub-value position and flag of every Value class that holds values; structural oracle FreeVars / "
+        "RefSubst / Norm / RefSame independent of the ImplSubstF / ImplEq / ImplSameHash / ImplWalkVars transcriptions) + "
+        "SubstContextsTrace.tla for substitution, equality / hash of separately built values and extract_typevars",
+        text="Model checking over all triples of 49 terms (literals incl. unhashable ones, typed, generic, sequence, subclass, newtype, "
+        "type variables, TypedDict / DictIncomplete, unions incl. permuted and nested ones) x 6 type-variable maps, plus 17k "
+        "context cases (44 one-hole frames nested to depth 2; thorough depth 3, 66k; fillers T, S, int, a function literal; 8 "
+        "maps incl. a chain and a swap) and 9k equality pairs, all replayed into the real value API with drift 0. Three defects "
+        "were repaired (union hash, substitution into unions, TypedDict extra keys not walked); six deviation classes are open "
+        "findings, excused only where the real result equals the model's prediction.",
         design="2/C14",
-        note=TRUSTED + " TypedDict and DictIncomplete (optional / unpacked pairs) terms are in the term space; callable and annotated values are not yet.",
+        note=TRUSTED + " TypedDict and DictIncomplete (optional / unpacked pairs) terms are in the term space; callable, annotated, TypedDict extra-keys, exactly, Unpacked and AsyncTask values are in the context slice; ParamSpec "
+        "parameters, TypeVar bounds mentioning type variables, UnboundMethodValue and TypeAliasValue are not.",
     ),
     "C15": dict(
         technique="TLA+ spec TypeVarSolve.tla: typevar.solve as a fold machine (bottom, top, options; one action per branch, TLC's "
@@ -313,13 +319,21 @@ CHECKS = {
     "C18": dict(
         technique="TLA+ spec Config.tla (options.py transcription vs documented precedence) checked exhaustively by TLC; "
         "every TLC-enumerated/simulated case replayed through real TOML files + pyanalyze.options and adjudicated by TLC "
-        "against ConfigTrace.tla",
-        text="Model checking: TLC proves ImplLookup = RefLookup for every chain of <=2 (quick) / <=3 (thorough) config files "
-        "x command line x queried module x option kind, and the real options code is bound to the model by replaying the "
-        "enumerated cases (exhaustively up to the replay limit, seeded sample above it) with TLC judging every real result "
-        "against the documented precedence. Malformed configurations must raise InvalidConfigOption.",
+        "against ConfigTrace.tla; the command-line assembly (argparse -> main() settings -> prepare_constructor_kwargs) is a modelled "
+        "stage with seven seeded-model sensitivity cfgs, replayed through the real prepare_constructor_kwargs, "
+        "NameCheckVisitor.main() on a real sys.argv and `python -m pyanalyze --display-options` subprocesses",
+        text="Model checking: TLC proves ImplLookup = RefLookup on every state of (a) chains of <=2 (quick) / <=3 (thorough) "
+        "config files x command line x queried module x {bool, int, list} and (b) the command-line assembly slice: six option "
+        "kinds x {absent, falsy, truthy} on command line (kwargs and every argv of <=2 tokens), override, top level, extended "
+        "file, default; flat / nested directories; 14 malformed kinds at every file / section (6e5 + 1.8e5 states quick; 4e7 + "
+        "4e6 thorough). The printed cases (deterministic sample where the space exceeds the replay budget; 1.3e5 real "
+        "observations quick) are replayed through the real options code with TLC judging every result (CommandLineValueWins, "
+        "LayeringFollowsDocs, MalformedRejected); the real command-line instances are compared with the model even when a lower "
+        "layer masks the value.",
         design="2/C18",
-        note=TRUSTED + " Three real options stand for the three option kinds.",
+        note=TRUSTED + " Seven real options stand for six option kinds; Options.display is replaced by a recorder in-process; path lists are "
+        "first-statement-wins (PathSequenceOption is not a ConcatenatedOption); files=[] means no file was named; a command line "
+        "with both -e X and -d X is outside the domain.",
     ),
     "C19": dict(
         technique="TLA+ spec Dispatch.tla (CPython operator protocol RefOp vs transcription ImplOp of _visit_binop_no_mvv / "
